@@ -1,5 +1,6 @@
 import Tahoe.Mutable.ServerMapLemmas
 import Tahoe.Mutable.ResurveyLemmas
+import Tahoe.Mutable.UpdaterLemmas
 /-! C11 — mutable version ordering and rollback resistance (property theorems; helper lemmas live in
     `Tahoe/Mutable/ServerMapLemmas.lean`). -/
 /-!
@@ -12,8 +13,8 @@ import Tahoe.Mutable.ResurveyLemmas
 | "A read returns the recoverable version with the highest sequence number among the versions it located" | `best_is_max_recoverable` (`best_recoverable_version`: max (seqnum, root hash) among versions with ≥ k distinct shares; `None` iff none); that `download_best_version` reads exactly that version: C14 `download_version_exact` + monitor |
 | "…and keeps querying further servers while it has seen a newer version it cannot yet recover" | `keeps_querying` (never `done`), `keeps_querying_sends` (a new query is actually sent), `read_done_sound` (converse: what `done` implies) |
 | quantifier: stale shares on any subset of servers, unavailable servers, servers that replay older shares | the theorems quantify over all servermaps / updater states / pass sequences; which servermap a given grid produces is correspondence + monitor (grid histories) |
-| MODE_WRITE boundary rule (EPSILON empty servers after the last share, everybody to the left answered) | correspondence only (`upd` cases, all `_check_for_done` calls of grid histories); no theorem |
-| MODE_CHECK / MODE_ANYTHING / MODE_REPAIR exits of `_check_for_done` | correspondence only |
+| MODE_WRITE boundary rule (EPSILON empty servers after the last share, everybody to the left answered) | `write_done_boundary` (done ⇒ exhausted, or: a version recoverable, private key not pending, and the scan stopped after a prefix of the permuted list in which everybody answered, a server with shares occurs and ≥ EPSILON servers answered "no shares"); that the EPSILON empty answers are *consecutive after the last server with shares* is in the model (`scanLoop`, tied by the `upd` cases) but the theorem states only their number |
+| MODE_CHECK / MODE_ANYTHING / MODE_REPAIR exits of `_check_for_done` | `check_repair_anything_exits` (CHECK/REPAIR: done ⇔ no must-query server pending; ANYTHING: done ⇔ exhausted or something recoverable) |
 -/
 namespace Tahoe.C11
 open Tahoe.Mutable Tahoe.Mutable.ServerMap
@@ -266,5 +267,97 @@ theorem new_seqnum_exceeds_all_passes (sm0 : ServerMap) (passes : List (List Sur
 /-- pass 1: server 12 answers with its seq-5 share; pass 2: server 12 fails.  The choice is still 6. -/
 example : newSeqnum (some (resurvey {} [[.share 10 0 vA, .answered 10, .share 12 2 vB, .answered 12],
     [.share 10 0 vA, .answered 10, .failed 12]])) = 6 := by decide
+
+/-! ### the other modes of `_check_for_done` -/
+
+/-- MODE_WRITE finishes only when nothing more can be asked, or: some version is recoverable, the private key is
+    not still being waited for, and the scan of the permuted server list stopped at a boundary — after a prefix in
+    which every server has answered, which contains a server with shares, and in which at least `EPSILON` servers
+    answered "no shares". -/
+theorem write_done_boundary (u : Upd) (hmode : u.mode = .write) (h : checkForDone u = .done) :
+    (u.outstanding = [] ∧ u.extra = []) ∨
+    (u.sm.recoverable ≠ [] ∧ u.needPrivkey = false ∧
+      ∃ pre suf, u.full = pre ++ suf ∧ (∀ x ∈ pre, u.responded x) ∧ (∃ x ∈ pre, u.isFound x) ∧
+        u.epsilon ≤ (pre.filter (fun x => decide (u.isEmptyResp x))).length) := by
+  unfold checkForDone at h
+  simp only [hmode, show (Mode.write = Mode.anything) = False from by simp,
+      show (Mode.write = Mode.check) = False from by simp, show (Mode.write = Mode.repair) = False from by simp,
+      show (Mode.write = Mode.read) = False from by simp, decide_false, Bool.false_and, Bool.or_self,
+      Bool.false_eq_true, if_false, if_true] at h
+  split at h
+  · simp at h
+  · split at h
+    · simp at h
+    · split at h
+      · rename_i h3
+        left
+        simp only [Bool.and_eq_true, List.isEmpty_iff] at h3
+        exact h3
+      · split at h
+        · simp at h
+        · rename_i hrec
+          split at h
+          · rename_i hfb
+            split at h
+            · rename_i hln
+              split at h
+              · simp at h
+              · rename_i hpk
+                right
+                refine ⟨fun hnil => hrec (by rw [hnil]; rfl), by simpa using hpk, ?_⟩
+                have hln' : (scanLoop u 0 u.full {}).lastNotResponded = none := by
+                  cases hc : (scanLoop u 0 u.full {}).lastNotResponded with
+                  | none => rfl
+                  | some x => rw [hc] at hln; simp at hln
+                obtain ⟨pre, suf, h1, h2, h3, h4⟩ := scanLoop_boundary u u.full 0 {} rfl rfl hfb hln'
+                refine ⟨pre, suf, h1, h2, ?_, by simpa using h4⟩
+                rcases h3 with h3 | h3
+                · simp at h3
+                · exact h3
+            · simp at h
+          · simp at h
+
+/-- write-mode updater: servers 0..3 answered (0, 1 with shares, 2, 3 empty), EPSILON = 2, 4 and 5 not asked -/
+def updW : Upd :=
+  { mode := .write, running := true, mustQuery := [], outstanding := [], extra := [4, 5], completed := 4,
+    numToQuery := 5, epsilon := 2, needPrivkey := false, full := [0, 1, 2, 3, 4, 5], bad := [],
+    empty := [2, 3], withShares := [0, 1], sm := { known := [((0, 0), vA), ((1, 1), vA)] } }
+example : checkForDone updW = .done ∧ checkForDone { updW with empty := [2] } = .more 5 ∧
+    checkForDone { updW with needPrivkey := true } = .more 5 := by decide
+
+/-- MODE_CHECK and MODE_REPAIR ask every server at the start and finish exactly when no server that must answer is
+    still pending; MODE_ANYTHING finishes as soon as one version is recoverable (or nothing more can be asked). -/
+theorem check_repair_anything_exits (u : Upd) (hrun : u.running = true) :
+    ((u.mode = .check ∨ u.mode = .repair) → (checkForDone u = .done ↔ u.mustQuery = [])) ∧
+    (u.mode = .anything → u.mustQuery = [] →
+      (checkForDone u = .done ↔ (u.outstanding = [] ∧ u.extra = []) ∨ u.sm.recoverable ≠ [])) := by
+  constructor
+  · intro hm
+    unfold checkForDone
+    cases hq : u.mustQuery with
+    | cons a l => simp [hrun, hq]
+    | nil =>
+      simp only [hrun, hq, Bool.not_true, Bool.false_eq_true, if_false, List.isEmpty_nil, iff_true]
+      split
+      · rfl
+      · rcases hm with hm | hm <;> simp [hm]
+  · intro hm hq
+    unfold checkForDone
+    simp only [hrun, hq, hm, Bool.not_true, Bool.false_eq_true, if_false, List.isEmpty_nil]
+    by_cases hx : (u.outstanding.isEmpty && u.extra.isEmpty) = true
+    · simp only [hx, if_true, true_iff]
+      left
+      simpa [List.isEmpty_iff] using hx
+    · simp only [hx, if_false]
+      have hx' : ¬ (u.outstanding = [] ∧ u.extra = []) := by
+        intro h; apply hx; simp [h.1, h.2]
+      cases hr : u.sm.recoverable with
+      | nil => simp [hx']
+      | cons a l => simp
+
+example : checkForDone { updW with mode := .check } = .done ∧
+    checkForDone { updW with mode := .check, mustQuery := [3] } = .wait ∧
+    checkForDone { updW with mode := .anything } = .done ∧
+    checkForDone { updW with mode := .anything, sm := {} } = .more 5 := by decide
 
 end Tahoe.C11
